@@ -81,6 +81,10 @@ def run_circular_binseg(
         anomaly_start_candidates, anomaly_end_candidates = make_anomaly_intervals(
             start, end, min_segment_length
         )
+        if anomaly_start_candidates.size == 0:
+            # The interval is too short to contain an anomaly (length 2 when
+            # min_segment_length = 1). Its score stays 0, so it is never selected.
+            continue
         intervals = np.column_stack(
             (
                 np.repeat(start, anomaly_start_candidates.size),
